@@ -182,7 +182,12 @@ Section Finder.
               if ok then
                 do atom <- finder f 3 o 0;
                 do nxt <- (if o + 1 <? L then is_id (o + 1) else Val false);
-                if negb (iskeyword (sliceC atom (o + 1))) || nxt then Val atom else Val aux
+                if negb (iskeyword (sliceC atom (o + 1))) || nxt then Val atom
+                else
+                  (* or self._follows_dot(atom_start): prev = last_non_space(atom - 1); prev >= 0 and code[prev] is a dot *)
+                  do prev <- last_non_space F (atom - 1);
+                  do fd <- (if 0 <=? prev then do cp <- getC prev; Val (cp =? cDOT)%N else Val false);
+                  if fd then Val atom else Val aux
               else Val aux
         | 2%nat =>   (* _find_parens_start(o) *)
             do o1 <- last_non_space F (o - 1);
